@@ -30,10 +30,10 @@ import (
 //gosym:stub (*github.com/andydunstall/piko/server/gossip.Gossip).Close = vStubGossipClose if c18-order
 
 var (
-	vEvents   []string
-	vCtxs     []context.Context
-	vFail     = map[string]bool{}
-	vErrStep  = errors.New("step failed")
+	vEvents  []string
+	vCtxs    []context.Context
+	vFail    = map[string]bool{}
+	vErrStep = errors.New("step failed")
 )
 
 func vStep(name string, ctx context.Context) error {
@@ -47,9 +47,15 @@ func vStep(name string, ctx context.Context) error {
 	return nil
 }
 
-func vStubUpstreamShutdown(s *upstream.Server, ctx context.Context) error { return vStep("upstream-shutdown", ctx) }
-func vStubProxyShutdown(s *proxy.Server, ctx context.Context) error       { return vStep("proxy-shutdown", ctx) }
-func vStubAdminShutdown(s *admin.Server, ctx context.Context) error       { return vStep("admin-shutdown", ctx) }
+func vStubUpstreamShutdown(s *upstream.Server, ctx context.Context) error {
+	return vStep("upstream-shutdown", ctx)
+}
+func vStubProxyShutdown(s *proxy.Server, ctx context.Context) error {
+	return vStep("proxy-shutdown", ctx)
+}
+func vStubAdminShutdown(s *admin.Server, ctx context.Context) error {
+	return vStep("admin-shutdown", ctx)
+}
 func vStubSetReady(s *admin.Server, ready bool) {
 	if ready {
 		vStep("ready-true", nil)
